@@ -691,7 +691,8 @@ func main() {
 	leafMin := 2*(29+4) + 10
 	cfgs := []cfg{
 		{leafMin, 1 << 10, 1 << 20, 256, 1 << 20, true},
-		{leafMin, 1, 1, 256, 1 << 20, true},
+		// cache sizes are weights in bytes: 1 = nothing is ever cached, 2*leafMin = about two nodes
+		{leafMin, 2 * leafMin, 1, 256, 1 << 20, true},
 		{leafMin, 1, 3, 128, 64, false},
 		{4096, 1 << 10, 1 << 20, 1 << 16, 1 << 20, true},
 	}
